@@ -46,7 +46,8 @@ def main():
     ap.add_argument("-j", type=int, default=4)
     ap.add_argument("names", nargs="*")
     a = ap.parse_args()
-    names = a.names or sorted(n for n in os.listdir(os.path.join(V, "seeded")) if os.path.exists(os.path.join(V, "seeded", n, "meta.json")))
+    names = a.names or sorted(n for n in os.listdir(os.path.join(V, "seeded")) if os.path.exists(os.path.join(V, "seeded", n, "meta.json"))
+                              and "superseded" not in json.load(open(os.path.join(V, "seeded", n, "meta.json"))))
     bad = 0
     with ThreadPoolExecutor(max_workers=a.j) as ex:
         for name, ok, info in ex.map(one, names):
